@@ -4,5 +4,5 @@
 #define C09_TYPE_LIST                                                                                                  \
     TY(true, "NOpt", NOpt) TY(true, "NVar", NVar) TY(true, "NCnt", NCnt) TY(false, "vector<NOpt>", vec<NOpt>)           \
     TY(false, "vector<NVar>", vec<NVar>) TY(true, "vector<NCnt>", vec<NCnt>) TY(false, "vector<vector<NOpt>>", vec<vec<NOpt>>) \
-    TY(false, "NE", NE) TY(false, "vector<NE>", vec<NE>)
+    TY(false, "NE", NE) TY(false, "vector<NE>", vec<NE>) TY(false, "NNode", NNode) TY(false, "vector<NNode>", vec<NNode>)
 #include "new_impl.h"
